@@ -46,6 +46,9 @@ type pki struct {
 	clients   map[string]tls.Certificate
 	extractor network.TLSClientIDExtractor
 	wrapper   *network.TLSConnectionWrapper
+	// production extractors (hex of SHA-512) built by the open-connections phase
+	prodExtractors map[string]network.TLSClientIDExtractor
+	curExtractor   string
 }
 
 func newPKI(ids [][]byte) *pki {
